@@ -69,7 +69,15 @@ impl StreamReader {
         }
 
         // 3. buffer 为空，从 channel 接收新数据
-        match self.reader_rx.recv().await {
+        // An empty chunk (zero-length PSH) carries no bytes: skip it, because returning
+        // Ok(0) for a non-empty `buf` means end-of-stream to every caller.
+        let received = loop {
+            match self.reader_rx.recv().await {
+                Some(data) if data.is_empty() && !buf.is_empty() => continue,
+                other => break other,
+            }
+        };
+        match received {
             Some(data) => {
                 let data_len = data.len();
                 tracing::debug!(
